@@ -12,8 +12,8 @@
 (* tokens in range, cursor valid) and, under fair packet assembly, that a  *)
 (* stream that stays sendable is eventually served (NoStarvation).         *)
 (* RefillSame = TRUE: what the code does.  `CodeGuarantee` is the fairness *)
-(* that rule can still promise: one visit per round, and service provided  *)
-(* every OTHER stream runs dry infinitely often.                           *)
+(* that rule can still promise: one visit per round, and service once the  *)
+(* applications stop writing (every backlog is then finite).               *)
 (***************************************************************************)
 EXTENDS StreamSched
 CONSTANTS Ids,         \* stream ids that may be opened
@@ -77,7 +77,8 @@ MCInv == /\ NoAlarm(m) /\ TokensInRange(m) /\ CursorValid(m)
 Served(s) == m.res.now /\ m.res.ok /\ m.res.sid = s
 \* (1) NoStarvation: a stream cannot stay sendable forever without being served
 NoStarvation == \A s \in Ids : Sendable(m, s) ~> (Served(s) \/ ~Sendable(m, s))
-\* what the code's refill rule still guarantees: service once every other stream has run dry
-OthersRunDry(s) == \A u \in Ids \ {s} : []<>(~Sendable(m, u))
-CodeGuarantee == \A s \in Ids : OthersRunDry(s) => (Sendable(m, s) ~> (Served(s) \/ ~Sendable(m, s)))
+\* what the code's refill rule still guarantees: service once the applications stop feeding the streams (a stream that
+\* "runs dry infinitely often" is not enough: it may always have been refilled by the time the next packet is assembled)
+WritesStop == <>[][~DoWrite]_vars
+CodeGuarantee == WritesStop => NoStarvation
 =============================================================================
